@@ -20,7 +20,7 @@ VARIABLES ci, L, addr, mode, cidx
 vars == <<ci, L, addr, mode, cidx>>
 T == Catalog[ci].t
 
-GenLen(t) == IF IsSized(t) THEN StaticSize(t) ELSE MinSize(t) + 3 * Align(t) + 1
+GenLen(t) == IF IsSized(t) THEN StaticSize(t) ELSE RoomyMin(t) + 3 * Align(t) + 1
 MaxL(t)   == GenLen(t) + Align(t) + 1
 
 \* contents offered: spread over the trees that fit a generous slice
@@ -33,17 +33,21 @@ Init ==
   /\ ci \in {i \in DOMAIN Catalog : Catalog[i].id \in TypeIds}
   /\ L = 0 /\ addr = 0 /\ mode = "seed" /\ cidx = 0
 
+\* vectors whose length is at the maximum of a one-byte length type: slices of 257 / 300 bytes, 254 .. 256 items
+BigIds == {"V_u8_u8", "V_unit_u8"}
+BigConts == [n \in 1..3 |-> Rep(253 + n, IF T.elem[1].k = "unit" THEN <<>> ELSE <<7>>)]
 Seed ==
   /\ mode = "seed"
-  /\ \/ mode' = "new" /\ cidx' \in 1..Len(Contents(T))
-     \/ HasDefault(T) /\ mode' = "default" /\ cidx' = 0
-  /\ L' \in 0..MaxL(T)
+  /\ \/ /\ \/ mode' = "new" /\ cidx' \in 1..Len(Contents(T))
+           \/ HasDefault(T) /\ mode' = "default" /\ cidx' = 0
+        /\ L' \in 0..MaxL(T)
+     \/ /\ Catalog[ci].id \in BigIds /\ mode' = "big" /\ cidx' \in 1..3 /\ L' \in {256, 257, 300}
   /\ addr' \in {0} \cup (IF L' \in {MinSize(T), MaxL(T)} \/ IsPortable(T) THEN 1..MaxI(Align(T) - 1, IF IsPortable(T) THEN 3 ELSE 0) ELSE {})
   /\ UNCHANGED ci
 Next == Seed
 Spec == Init /\ [][Next]_vars
 
-Cont == IF mode = "default" THEN DefaultContent(T) ELSE Contents(T)[cidx]
+Cont == IF mode = "default" THEN DefaultContent(T) ELSE IF mode = "big" THEN BigConts[cidx] ELSE Contents(T)[cidx]
 B == Build(Cont, T, L)
 Outcome ==
   IF addr % Align(T) # 0 THEN [o |-> "err", kinds |-> IF L >= MinSize(T) THEN <<"BadAlign">> ELSE <<"BadAlign", "InsufficientSize">>]
@@ -93,7 +97,7 @@ All ==
                   ELSE IF b.ok THEN [o |-> "ok", kinds |-> <<>>]
                   ELSE IF L >= MinSize(T) /\ Build(Cont, T, L + Align(T) - 1).ok THEN [o |-> "either", kinds |-> <<"InsufficientSize">>]
                   ELSE [o |-> "err", kinds |-> <<"InsufficientSize">>]
-       IN PrintT(<<"CASE", ToJson([k |-> "emp", id |-> Catalog[ci].id, L |-> L, addr |-> addr, mode |-> mode, content |-> Cont,
+       IN PrintT(<<"CASE", ToJson([k |-> "emp", id |-> Catalog[ci].id, L |-> L, addr |-> addr, mode |-> IF mode = "big" THEN "new" ELSE mode, content |-> Cont,
                                    portable |-> IsPortable(T), hasdefault |-> HasDefault(T), sized |-> IsSized(T),
                                    exp |-> [o |-> oc.o, kinds |-> oc.kinds,
                                             tree |-> IF b.ok THEN b.tree ELSE <<>>,
